@@ -368,7 +368,7 @@ func repeatRuns(em *emitter, rng *rand.Rand, g *gw.GW, w *world.World, op *world
 	op.Fill()
 	var fault *fakesvc.FaultSpec
 	g.ResetLogs()
-	g.Do(op)
+	dst, denv, derr := g.Do(op)
 	dryLogs, calls := g.Net.Snapshot()
 	if len(calls) > 0 && rng.Intn(2) == 0 {
 		// the fault is tied to ONE sub-request by identity, so that the service answers the same way
@@ -411,30 +411,7 @@ func repeatRuns(em *emitter, rng *rand.Rand, g *gw.GW, w *world.World, op *world
 	if fault != nil && strings.HasPrefix(fault.Kind, "nodenull") {
 		repeats *= 3
 	}
-	for k := 0; k < repeats; k++ {
-		g.ResetLogs()
-		applied := false
-		if fault != nil {
-			g.Net.Fault = fault.Apply(&applied)
-		}
-		if sparse != 0 {
-			g.Net.Fault = fakesvc.SparseFault(sparse, &applied)
-		}
-		g.Net.Gate = func(svc string, call int) {
-			dmu.Lock()
-			d := time.Duration(delays.Intn(300)) * time.Microsecond
-			dmu.Unlock()
-			if d > 100*time.Microsecond {
-				time.Sleep(d)
-			} else {
-				runtime.Gosched()
-			}
-		}
-		em.w.Flush()
-		st, env, err := g.Do(op)
-		g.Net.Fault = nil
-		g.Net.Gate = nil
-		logs, _ := g.Net.Snapshot()
+	emitObs := func(k int, st int, env map[string]interface{}, err error, logs []*fakesvc.ReqLog) {
 		reqs := map[string][]string{}
 		for _, s := range w.Services {
 			reqs[s.URL] = []string{}
@@ -462,6 +439,37 @@ func repeatRuns(em *emitter, rng *rand.Rand, g *gw.GW, w *world.World, op *world
 		}
 		em.emit(map[string]interface{}{"ev": "Obs", "key": key, "k": k, "status": st, "data": data, "errors": msgs, "reqs": reqs, "text": w.OpText(op),
 			"tags": op.Tags, "fault": fault != nil || sparse != 0, "op": op})
+	}
+	if fault == nil && sparse == 0 {
+		// the first execution on this gateway is the one that learnt the calls: it counts (a caching planner hands the
+		// plan it left behind to every later execution - what the first request did to it must not show)
+		emitObs(-1, dst, denv, derr, dryLogs)
+	}
+	for k := 0; k < repeats; k++ {
+		g.ResetLogs()
+		applied := false
+		if fault != nil {
+			g.Net.Fault = fault.Apply(&applied)
+		}
+		if sparse != 0 {
+			g.Net.Fault = fakesvc.SparseFault(sparse, &applied)
+		}
+		g.Net.Gate = func(svc string, call int) {
+			dmu.Lock()
+			d := time.Duration(delays.Intn(300)) * time.Microsecond
+			dmu.Unlock()
+			if d > 100*time.Microsecond {
+				time.Sleep(d)
+			} else {
+				runtime.Gosched()
+			}
+		}
+		em.w.Flush()
+		st, env, err := g.Do(op)
+		g.Net.Fault = nil
+		g.Net.Gate = nil
+		logs, _ := g.Net.Snapshot()
+		emitObs(k, st, env, err, logs)
 	}
 }
 
